@@ -22,7 +22,7 @@ def main():
         mc=[('MC_SpinePaths', 'MC_SpinePaths_c07.cfg', 'MC_SpinePaths(PartitionLaw)')],
         populations=[('kern_only', dp.sess_c07, 90, 1500, {}),
                      ('mixed', dp.sess_c07, 40, 600, {'mixed': True, 'profile': 'main'}),
-                     ('mixed_sigs', dp.sess_c07, 40, 400, {'mixed': True, 'profile': 'main', 'sigs': True}),
+                     ('mixed_sigs', dp.sess_c07, 40, 300, {'mixed': True, 'profile': 'main', 'sigs': True, '_fixed': True}),
                      # invisible barlines open measures like any barline (strict: index, count, iteration, rejections); what is
                      # exported for them is the recorded finding D18
                      ('invisible_barlines', dp.sess_c07, 40, 400, {'hidden': True})],
